@@ -447,7 +447,23 @@ class Server:
                        # human-readable text in a legacy charset (not valid UTF-8)
                        b"Acc\xe8s refus\xe9", b"\xff\xfe denied", b"caf\xe9"]
 
+    # response codes whose string parameter needs an escape-aware reader (RFC 5804 lets any
+    # reply carry a code; unknown ones are to be ignored)
+    LOOKALIKE_CODES = [b'X-MOTD "the \\"new\\" server\\""', b'TAG "a)b"', b'TAG "q\\"q"',
+                       b'X-NOTE "(x"', b'TAG "\\\\"', b'X-NOTE "a \\" ) {3}"']
+
+    forced_code = forced_text = None  # a check may pin the code / text of every reply
+
+    def _lookalike_code(self, code):
+        if code is None and self.forced_code is not None:
+            return self.forced_code
+        if code is None and self.rng.random() < 0.3:
+            return self.rng.choice(self.LOOKALIKE_CODES)
+        return code
+
     def _lookalike(self):
+        if self.forced_text is not None:
+            return self.forced_text
         if self.rng.random() < 0.6:
             return self.rng.choice(self.LOOKALIKE_TEXTS)
         from . import textgen  # W-TEXT: texts from broad character classes
@@ -458,6 +474,7 @@ class Server:
         if self.lookalike_texts:
             text = self._lookalike()
             how = "literal"
+            code = self._lookalike_code(code)
         self.last_status = (kind, code, text)
         self.status_log.append((self.ncmd, kind, code, text))
         self.emit(status(kind, code, text, how))
@@ -497,7 +514,7 @@ class Server:
                 return
             self.emit(self.cap_lines())
             if self.lookalike_texts:
-                self.emit(status("OK", None, self._lookalike(), "literal"))
+                self.emit(status("OK", self._lookalike_code(None), self._lookalike(), "literal"))
             else:
                 self.emit(self.greeting_status)
 
@@ -521,7 +538,8 @@ class Server:
         self.emit(self.cap_lines())
         if self.lookalike_texts:
             # the text names the handshake so that the trace checks still find this reply
-            self.emit(status("OK", None, b"OK TLS negotiation successful.", "literal"))
+            self.emit(status("OK", self._lookalike_code(None), b"OK TLS negotiation successful.",
+                             "literal"))
         else:
             self.emit(b'OK "TLS negotiation successful."\r\n')
         self.caps_sent_after_tls = True
